@@ -7,7 +7,9 @@ VBad   == <<0, 5, 2, 0, 0, 0>>
 VShort == <<1, 5, 2>>
 VNone  == <<>>
 
-AddrsAll   == {"A1", "A2", "X1"}
+\* A1, A2 inside the allowlist, X1 outside, E0 the empty address, M3 a malformed 3-byte address
+AddrsAll   == {"A1", "A2", "X1", "E0"}
+AddrsFull  == {"A1", "A2", "X1", "E0", "M3"}
 AllowedAll == {"A1", "A2"}
 AddrsTwo   == {"A1", "X1"}
 
